@@ -144,6 +144,10 @@ def match_d21(case, kind, detail):
         return p is not None and any(OX.under(p, d) for d in dirs)
     if kind == 'exactness':
         return all(near(problem_path(p)) for p in detail)
+    if kind == 'foreign-file':
+        return near(detail.split(':')[0])
+    if kind == 'idempotence':
+        return True
     if kind == 'fresh-verify':
         if detail[0] == 'err' and detail[1][0] == 'ManifestIncompatibleEntry':
             return True
